@@ -32,7 +32,10 @@ MinimalAgrees  == LET r == ArithLine(Unparse(e, 0, FALSE)) IN r.ok /\ r.v = Tree
 FullAgrees     == LET r == ArithLine(UnparseFull(e)) IN r.ok /\ r.v = TreeValue(e)
 AdjacencyAdds  == LET toks == Unparse(e, 0, FALSE) IN
                   \A i \in PlusBetweenLits(toks) : LET r == ArithLine(DropAt(toks, i)) IN r.ok /\ r.v = TreeValue(e)
-Canonical      == LET v == TreeValue(e) IN v = Norm(v)
+Canonical      == LET v == TreeValue(e) IN
+                  /\ v = Norm(v)
+                  /\ (v = Zero \/ v[1] % 1000 # 0) /\ v[2] > 0 /\ Gcd(Abs(v[1]), v[2]) = 1
+                  /\ (v[3] = 0 \/ Gcd(v[2], 1000) = 1) /\ v[3] >= 0 /\ v[3] % 3 = 0
 \* unbalanced or dangling token sequences are not sentences
 Rejects        == LET toks == Unparse(e, 0, FALSE) IN
                   /\ ~ArithLine(toks \o <<TRp>>).ok
